@@ -527,6 +527,59 @@ def reentrancy_section(res):
                 eq.close()
 
 
+def open_transaction_section(res):
+    """Not in the Lean model (its operations are atomic).  One trigger call over several enabled events; while the S6F11 transaction of
+    the FIRST event is still open (the host has not answered yet) the host unlinks / disables a LATER event of the same call.  Whatever
+    the call decided when it started: the sender must survive, the events of the call that are still linked and enabled when their turn
+    comes are all sent, in order, well formed; an event that is no longer linked is never reported with reports it does not hold."""
+    for how in ("unlink-middle", "disable-middle", "unlink-last"):
+        eq = gemlib.Equipment()
+        h, c = eq.h, eq.c
+        try:
+            h.status_variables[30] = secsgem.gem.StatusVariable(30, "sv30", "u", V.U4)
+            h.status_variables[30].value = 7
+            for ce in (50, 51, 52):
+                h.collection_events[ce] = secsgem.gem.CollectionEvent(ce, f"ce{ce}", [])
+            for s_, f_, val in ((2, 33, {"DATAID": 1, "DATA": [{"RPTID": 1, "VID": [30]}]}),
+                                (2, 35, {"DATAID": 1, "DATA": [{"CEID": ce, "RPTID": [1]} for ce in (50, 51, 52)]}),
+                                (2, 37, {"CEED": True, "CEID": [50, 51, 52]})):
+                ans = eq.request(s_, f_, val, True)
+                if ans[2] != ("B", [0]):
+                    raise RuntimeError(f"open-transaction setup S{s_}F{f_} refused: {ans}")
+            victim = 52 if how == "unlink-last" else 51
+            case = {"how": how, "trigger": [50, 51, 52], "changed_while_S6F11_of_50_is_open": victim}
+            c.primaries.clear()
+            del c.primary_systems[:]
+            c.mute.add((6, 11))
+            h.trigger_collection_events([50, 51, 52])
+            if not c.wait_for(lambda: any(p[:2] == (6, 11) for p in c.primaries)):
+                raise RuntimeError("open-transaction scenario: no S6F11 after the trigger")
+            first_system = c.primary_systems[[p[:2] for p in c.primaries].index((6, 11))]
+            if how.startswith("unlink"):
+                ans = eq.request(2, 37, {"CEED": False, "CEID": [victim]}, True)
+                ans = eq.request(2, 35, {"DATAID": 1, "DATA": [{"CEID": victim, "RPTID": []}]}, True)
+            else:
+                ans = eq.request(2, 37, {"CEED": False, "CEID": [victim]}, True)
+            accepted = ans[2] == ("B", [0])
+            c.mute.discard((6, 11))
+            c.feed_raw(6, 12, False, first_system, b"\x21\x01\x00")
+            errs = THREADS.join_all()
+            sent = [Run.show_report(gemlib.decode_body(p[2])) for p in c.primaries if p[:2] == (6, 11)]
+            ok_forms = {ce: f"rn{ce}[n1(n7)]" for ce in (50, 51, 52)}
+            others = [ce for ce in (50, 51, 52) if ce != victim]
+            must = [ok_forms[ce] for ce in others]
+            got_others = [x for x in sent if x != ok_forms[victim]]
+            res.count(("open-txn", how), sample=dict(case, sent=sent, accepted=accepted) if how == "unlink-middle" else None)
+            res.bump("open_transaction", how + ":" + ("ok" if (not errs and got_others == must) else "differs"))
+            if errs or got_others != must or (accepted and ok_forms[victim] in sent and how.startswith("unlink")):
+                res.violate("trigger-open-transaction", f"trigger of CEIDs 50,51,52; CEID {victim} "
+                            f"{'disabled and unlinked' if how.startswith('unlink') else 'disabled'} by the host while the S6F11 of CEID 50 was unanswered: "
+                            f"sent {sent}{' and the sender thread died: ' + repr(errs[0])[:120] if errs else ''}; the other events of the call must all be "
+                            f"reported ({must}) and an unlinked event never with the reports it no longer holds", case, must, sent)
+        finally:
+            eq.close()
+
+
 PREFIX = [f"V{k}={v}" for k, v in SV_CELLS.items()] + [f"W{k}={v}" for k, v in DV_CELLS.items()]
 
 
@@ -590,6 +643,7 @@ def main():
 
     if not a.replay:
         reentrancy_section(res)
+        open_transaction_section(res)
 
     lines, impls, metas = [], [], []
     for ops, salt, direct, gen in cases:
